@@ -130,7 +130,7 @@ func dentStr(es []squashfs.VerifDirEntry) string {
 }
 
 func codecCases(c *hx.Ctx, r *hx.Rng) {
-	n := c.N(150, 5000)
+	n := c.N(150, 3000)
 	for i := 0; i < n; i++ {
 		id := fmt.Sprintf("d/inode/%d", i)
 		rr := r.Fork()
@@ -157,7 +157,7 @@ func codecCases(c *hx.Ctx, r *hx.Rng) {
 			c.Stat("corr.inodeparse")
 		}
 	}
-	n = c.N(60, 2000)
+	n = c.N(60, 1200)
 	for i := 0; i < n; i++ {
 		id := fmt.Sprintf("d/dir/%d", i)
 		rr := r.Fork()
